@@ -195,6 +195,7 @@ func readCSVToUDLList(in io.Reader) ([]updownLine, error) {
 		})
 
 		udL := updownLine{id: record[0], snps: snps, snpsSorted: snpsSorted, snpsPos: snpPos, ambs: a, ambCount: amb_count}
+		udL.idx = counter // the query's position in the input, which selects its row in the output
 
 		LudL = append(LudL, udL)
 		counter++
